@@ -1,6 +1,7 @@
 import Model.FrameRead
 import Model.RespSpec
 import Model.Rows
+import Model.RowDataSpec
 import Model.Compress
 import Driver.Util
 namespace Driver.C04
@@ -12,8 +13,12 @@ open Util FrameRead RespSpec
         with the SPECIFICATION encoder (must equal <wire>), the MODEL parser runs on that encoding
   respx / raw / rowsx                     the model runs on the given bytes (model-vs-code)
   comp  like resp (compression is transparent: C04_compressed)
+  (the Lean models describe gocql AFTER the repairs of KF-C04-1, -2, -4, -5: against an unrepaired
+   checkout the spec-backed ops resp / rows / skip disagree on the former known-finding inputs)
   rows  <api> <dests> <fv> <logical response> <wire>   model of the consumer API + the specification's
-        expectation of the cells (must agree) -/
+        expectation of the cells (must agree)
+  skip / skipx  <fv> <PREPARED response> <wire1> ROWSRESP <ROWS response> <wire2>   executeQuery's iterator
+        with skip-metadata; skip: + the specification's expectation -/
 
 /-! ## token parser for logical responses -/
 
@@ -424,15 +429,22 @@ def rowsSpec (api : String) (v : Nat) (r : LResp) : Option String :=
     | some rows =>
       let md := viewMeta m
       let out := "ok M:" ++ dMeta md
-      let names := (Rows.rowDataNames md.columns).getD []
       let fin := s!"end:0,{rs.length},-"
       match api with
       | "scan" => some (out ++ " rows:[" ++ "|".intercalate (rows.map dExpectScan) ++ "] " ++ fin)
       | "scanner" => some (out ++ " rows:[" ++ "|".intercalate (rows.map dExpectScan) ++ "] done err:0")
       | "mapscan" =>
-        some (out ++ " rows:[" ++ "|".intercalate (rows.map (fun row => dMap (names.zip (row.map (fun x => hexO x.2))))) ++ "] " ++ fin)
+        -- RowData's names by the specification (Model/RowDataSpec.lean); a column without a Go type
+        -- (C04_no_go_type_is_error): false + error when there is a row, a normal end otherwise
+        match rowDataSpec m.cols with
+        | some names =>
+          some (out ++ " rows:[" ++ "|".intercalate (rows.map (fun row => dMap (names.zip (row.map (fun x => hexO x.2))))) ++ "] " ++ fin)
+        | none => some (out ++ " rows:[] " ++ (if rs.isEmpty then fin else "end:1,0,x"))
       | "slicemap" =>
-        some (out ++ " rows:[" ++ "|".intercalate (rows.map (fun row => dMap (names.zip (row.map (fun x => toHex (x.2.getD [])))))) ++ "] " ++ fin)
+        match rowDataSpec m.cols with
+        | some names =>
+          some (out ++ " rows:[" ++ "|".intercalate (rows.map (fun row => dMap (names.zip (row.map (fun x => toHex (x.2.getD [])))))) ++ "] " ++ fin)
+        | none => some (if rs.isEmpty then out ++ " rows:[] " ++ fin else out ++ " err")
       | _ => none
   | _ => none
 
@@ -459,8 +471,9 @@ def skipModel (fv : Nat) (wire1 wire2 : FrameRead.Bytes) : String :=
     | _, _ => "err"
   | _, _ => "err"
 
-/-- the specification's expectation for a NO_METADATA page read with the prepared statement's
-    result metadata `mp` -/
+/-- the specification's expectation when the driver asked to skip the metadata: a NO_METADATA page
+    is read with the prepared statement's result metadata `mp` (and the page's paging state), a page
+    that carries metadata anyway with its own (C04_skip_metadata) -/
 def skipSpec (prep page : LResp) : Option String :=
   match prep.body, page.body with
   | .result (.prepared _ _ _ (some mp)), .result (.rows pm rs) =>
@@ -472,7 +485,12 @@ def skipSpec (prep page : LResp) : Option String :=
         let md := { viewMeta mp with pagingState := some (pm.paging.getD []) }
         some ("ok M:" ++ dMeta md ++ " W:" ++ dWarnings page.warnings ++ " rows:[" ++ "|".intercalate (rows.map dExpectScan) ++
           "] " ++ s!"end:0,{rs.length},-")
-    | _ => none
+    | cols =>
+      match rs.mapM (expectRow (colTypes cols)) with
+      | none => none
+      | some rows =>
+        some ("ok M:" ++ dMeta (viewMeta pm) ++ " W:" ++ dWarnings page.warnings ++ " rows:[" ++
+          "|".intercalate (rows.map dExpectScan) ++ "] " ++ s!"end:0,{rs.length},-")
   | _, _ => none
 
 def tSkip : TP (Nat × LResp × FrameRead.Bytes × Nat × LResp × FrameRead.Bytes) := do
@@ -499,7 +517,7 @@ def respSpec (fv : Nat) (ws : List String) : String :=
   | none => "bad-op"
   | some (v, r, wire) =>
     if fv != v then "bad-op: framer version must equal the response version"
-    else if !(wf v r && noCollClassResp r) then "not-wf"
+    else if !(wf v r) then "not-wf"
     else if encodeFrame v r != wire then "spec-encoder-mismatch " ++ toHex (encodeFrame v r)
     else dOutcome (hdr v r) (parseResp fv (hdr v r) (encodeBody v r))
 
@@ -525,7 +543,7 @@ def step (_ : Unit) (ws : List String) : Unit × String :=
     (match fv.toNat?, parseLogical rest with
      | some fv, some (v, r, wire) =>
        if fv != v || pat != "A" then "bad-op"
-       else if !(wf v r && noCollClassResp r) then "not-wf"
+       else if !(wf v r) then "not-wf"
        else if encodeFrame v r != wire then "spec-encoder-mismatch " ++ toHex (encodeFrame v r)
        else
          let m := rowsModel api pat fv wire
@@ -541,7 +559,7 @@ def step (_ : Unit) (ws : List String) : Unit × String :=
     (match fv.toNat?, tSkip.run rest with
      | some fv, some ((v1, r1, w1, v2, r2, w2), []) =>
        if fv != v1 || fv != v2 then "bad-op"
-       else if !(wf v1 r1 && noCollClassResp r1 && wf v2 r2 && noCollClassResp r2) then "not-wf"
+       else if !(wf v1 r1 && wf v2 r2) then "not-wf"
        else if encodeFrame v1 r1 != w1 || encodeFrame v2 r2 != w2 then "spec-encoder-mismatch"
        else
          let m := skipModel fv w1 w2
